@@ -1163,6 +1163,24 @@ func Run(r *common.Run) error {
 				}
 				continue
 			}
+			if len(f) == 12 && f[0] == "C05" && f[1] == "queued" {
+				cl := call{entry: f[4], form: f[7]}
+				if f[5] != "-" {
+					if st, err := decToks(f[5]); err == nil && len(st) == 1 {
+						if s, ok := st[0].(xml.StartElement); ok {
+							cl.start = &s
+						}
+					}
+				}
+				ts, err1 := decToks(f[6])
+				ws, err2 := decToks(f[10])
+				if err1 == nil && err2 == nil {
+					cl.toks = ts
+					c.queued(mkCfg(f[2], f[3]), cl, f[8], f[9], ws)
+					executed++
+				}
+				continue
+			}
 			if len(f) == 15 && f[0] == "C05" && f[1] == "wfault" {
 				cl := call{entry: f[4], form: f[7]}
 				if f[5] != "-" {
@@ -1250,6 +1268,7 @@ func Run(r *common.Run) error {
 			if i%10 == 0 {
 				c.autoReply(cfgs[i%len(cfgs)])
 				c.behindCorpus(cfgs[i%len(cfgs)])
+				c.queuedCorpus(cfgs[i%len(cfgs)])
 			}
 		}
 		return nil
@@ -1270,6 +1289,10 @@ func Run(r *common.Run) error {
 	r.Mark("case calls queued behind a sender that stops inside its element")
 	for _, cfg := range cfgs {
 		c.behindCorpus(cfg)
+	}
+	r.Mark("case a call returns while another call is queued for the output lock behind it")
+	for _, cfg := range cfgs {
+		c.queuedCorpus(cfg)
 	}
 	r.Mark("case one write of the transport answered with a fault")
 	for _, cfg := range cfgs {
@@ -1320,6 +1343,7 @@ func Run(r *common.Run) error {
 		k := 1 + rnd.Intn(len(toks)-1)
 		c.behind(cfg, pickS(rnd, []string{"fail", "finish", "twfail", "encfail"}), rnd.Intn(k+1), k, toks, cl)
 	}
+	c.queuedRandom(rnd, r.Pick(150, 2500))
 	nW := r.Pick(200, 3000)
 	for i := 0; i < nW; i++ {
 		cfg := cfgs[rnd.Intn(len(cfgs))]
